@@ -8,6 +8,8 @@ Search (direct oracles, implementation outputs only; the ranking tuple is RE-STA
   tuple        calculate_specificity(rule) != (priority, #pattern conditions, #constraint kinds, pattern text length)
   lexmax       the category winner is not a matching categorizing rule with the lexicographically greatest tuple,
                or a rule with an equal tuple stands before it; same for the subcategory among matching rules that set one
+  normalize    normalize_merchant(...) in most_specific mode (rules loaded with get_all_rules(path, match_mode='most_specific'))
+               does not return that category / that subcategory
   permutation  category / subcategory change under a permutation of the file although no two candidates tie
   tags         tags differ from the union over all matching rules / change under a permutation
                (constraint kinds = the kinds of amount/date/source/field identifiers the rule USES; deviations explained by the
@@ -174,6 +176,25 @@ def judge_base(c, jr, ti):
                                'candidates': {jr['rules'][i]['name']: list(tup[i]) for i in idxs},
                                'candidates_with_substring_counting': {jr['rules'][i]['name']: list(txt[i]) for i in idxs if txt[i] != tup[i]},
                                'expressions': {jr['rules'][i]['name']: jr['rules'][i]['match'] for i in culprits}}, sig))
+    # the same ranking seen through normalize_merchant (get_all_rules(path, match_mode='most_specific') + cached engine):
+    # category of the first lexicographic maximum among matching categorizing rules, subcategory of the highest-ranked
+    # matching rule that sets one (which may be a tag-only rule outranking the category winner)
+    n = (tr.get('norm') or {}).get('most_specific')
+    if n is not None and 'crash' not in n and not out:
+        ec, es = first_max_index(cat, tup), first_max_index(sub, tup)
+        want = ['Unknown', 'Unknown'] if ec is None else [jr['rules'][ec]['category'], '' if es is None else jr['rules'][es]['subcategory']]
+        if [n['c'], n['s']] != want:
+            tc, ts = first_max_index(cat, txt), first_max_index(sub, txt)
+            want_txt = ['Unknown', 'Unknown'] if tc is None else [jr['rules'][tc]['category'], '' if ts is None else jr['rules'][ts]['subcategory']]
+            sig = None
+            if [n['c'], n['s']] == want_txt:
+                sig = kinds_signature(jr, cat if n['c'] != want[0] else sub, tup, txt)[0]
+            out.append(('normalize', {'why': 'normalize_merchant(most_specific): category/subcategory are not those of the most specific matching '
+                                             'categorizing rule / the highest-ranked matching rule that sets a subcategory',
+                                      'expected [category, subcategory]': want, 'observed': [n['c'], n['s']],
+                                      'match() says': [ms['category'], ms['subcategory']],
+                                      'subcategory_candidates': {jr['rules'][i]['name']: [jr['rules'][i]['subcategory'], list(tup[i])] for i in sub},
+                                      'category_candidates': {jr['rules'][i]['name']: [jr['rules'][i]['category'], list(tup[i])] for i in cat}}, sig))
     exp = expected_tags(jr, tr)
     if set(ms['tags']) - {''} != exp:
         out.append(('tags', {'why': 'most_specific: tags are not the union over all matching rules', 'expected': sorted(exp),
